@@ -48,7 +48,10 @@ func scratchDir() string {
 	if scratchRoot != "" {
 		return scratchRoot
 	}
-	base := "/dev/shm"
+	base := os.Getenv("WVERIF_SCRATCH")
+	if base == "" {
+		base = "/dev/shm"
+	}
 	if st, err := os.Stat(base); err != nil || !st.IsDir() {
 		base = os.TempDir()
 	}
